@@ -143,6 +143,45 @@ def tree_cases(ctx, harness):
     return cases
 
 
+def round5_cases(ctx):
+    """block-level pool scripts (two pools with a free-block cache, MergeFrom, DeallocateAll, one failing buffer allocation),
+    DataTable crew scripts (counts after every operation), vector migration between unequal allocators (event multisets)"""
+    r = ctx.rng
+    cases = []
+    nscripts = 40 if ctx.quick() else 400
+    for i in range(nscripts):
+        cfg = r.choice(['2.0', '4.3', '3.2', '8.16'])
+        held = [0, 0]; toks = []
+        for _ in range(r.range(6, 40)):
+            t = r.below(100); p = r.below(2)
+            if t < 45:
+                toks.append('a%d' % p); held[p] += 1
+            elif t < 80:
+                if held[p] > 0:
+                    k = r.below(held[p]) if r.chance(3, 4) else 0
+                    toks.append('d%d.%d' % (p, k)); held[p] -= 1
+            elif t < 93:
+                toks.append('m%d' % p); held[p] += held[1 - p]; held[1 - p] = 0
+            elif t < 96:
+                toks.append('x%d' % p); held[p] = 0
+            else:                                   # free everything a pool holds, newest first: empties whole buffers
+                for k in range(held[p] - 1, -1, -1):
+                    toks.append('d%d.%d' % (p, k))
+                held[p] = 0
+        script = ','.join(toks)
+        for f in ([-1] if i % 3 else [-1, 0, 1, 2, 3]):
+            cases.append('pc %s %s %d' % (cfg, script, f))
+    # the situation of seeded change C03/b, scripted: the source frees blocks (cached), merge, refill the source, DeallocateAll of the destination
+    for cfg in ('2.0', '4.3', '3.2', '8.16'):
+        cases.append('pc %s a1,a1,a1,a1,a1,d1.0,d1.0,d1.0,a0,m0,a1,a1,x0,d1.0 -1' % cfg)
+    for i in range(30 if ctx.quick() else 300):
+        cases.append('dtc ' + ''.join(r.choice('nnnaaerrr') for _ in range(r.range(4, 30))))
+    for n in (1, 2, 3, 7, 16):
+        for k in (-1, 0, 1):
+            cases.append('migv %d %d' % (n, k))
+    return cases
+
+
 def pick_ks(ctx, steps):
     if not ctx.quick() or steps <= 16:
         return list(range(steps))
@@ -300,10 +339,10 @@ def replay(ctx, rp):
     if not case:
         print('replay has no concrete case (no-failing-input-found): broken stages were', list(rp.get('broken', {}).keys())); return 1
     harness, exes = build_all(ctx)
-    if case.split()[0] in ('dt', 'hmm'):
+    if case.split()[0] in ('dt', 'hmm', 'dtc'):
         harness = exes.get('tie2')
     have_model = ctx.prove() and ctx.extract()
-    if case.split()[0] in ('om', 'arr', 'hs', 'ts', 'crew', 'pools', 'tsn', 'hsf', 'sa', 'sa2', 'grow', 'growa', 'dt', 'hmm'):
+    if case.split()[0] in ('om', 'arr', 'hs', 'ts', 'crew', 'pools', 'tsn', 'hsf', 'sa', 'sa2', 'grow', 'growa', 'pc', 'migv', 'dtc', 'dt', 'hmm'):
         if harness is None or not have_model:
             print('cannot build harness/model'); return 2
         mism, _ = ctx.correspond('replay', [case], [harness], [ctx.model_exe], stage=False)
@@ -345,21 +384,21 @@ def run(ctx):
     N = MECH_N_QUICK if ctx.quick() else MECH_N_THOROUGH
     # ---- tie: micro-correspondence of event traces
     if harness is not None and have_model:
-        cases = tie_cases(N) + grow_cases(ctx, harness) + tree_cases(ctx, harness)
-        part2 = [c for c in cases if c.split()[0] in ('dt', 'hmm')]
-        part1 = [c for c in cases if c.split()[0] not in ('dt', 'hmm')]
+        cases = tie_cases(N) + grow_cases(ctx, harness) + tree_cases(ctx, harness) + round5_cases(ctx)
+        part2 = [c for c in cases if c.split()[0] in ('dt', 'hmm', 'dtc')]
+        part1 = [c for c in cases if c.split()[0] not in ('dt', 'hmm', 'dtc')]
         mism, _ = ctx.correspond('micro-correspondence', part1, [harness], [ctx.model_exe])
         if harness2 is not None:
             mism2, _ = ctx.correspond('micro-correspondence-2', part2, [harness2], [ctx.model_exe])
             mism = mism + mism2
         ctx.tie_obligations.append({'name': 'L2 model trace == real code trace on %d (mechanism, category, count, k) cases' % len(cases), 'ok': not mism})
         for c in cases:
-            if not c.endswith(' -1'):
+            if not c.endswith(' -1') or c.split()[0] in ('pc', 'dtc'):
                 ctx.nontrivial.add(c)
         for (i, c, a, b) in mism[:3]:
             ctx.violation('resource-machine model and implementation disagree on the event trace', {'case': c, 'impl': a, 'model': b,
                           'cmd': 'echo "%s" | build/C03/harness' % c}, found_input=True)
-        ctx.coverage.setdefault('input_distribution', {})['tie_cases'] = {k: sum(1 for c in cases if c.split()[0] == k) for k in ('om', 'arr', 'hs', 'ts', 'crew', 'pools', 'tsn', 'hsf', 'sa', 'sa2', 'grow', 'growa', 'dt', 'hmm')}
+        ctx.coverage.setdefault('input_distribution', {})['tie_cases'] = {k: sum(1 for c in cases if c.split()[0] == k) for k in ('om', 'arr', 'hs', 'ts', 'crew', 'pools', 'tsn', 'hsf', 'sa', 'sa2', 'grow', 'growa', 'pc', 'migv', 'dtc', 'dt', 'hmm')}
         for c in cases[::max(1, len(cases) // 4)][:4]:
             ctx.add_sample(c)
     # ---- oracle / search on the real code
